@@ -18,6 +18,8 @@ use rssl_typer::verif::evaluate_constexpr;
 
 #[path = "c13_pos.rs"]
 pub mod pos;
+#[path = "c13_mix.rs"]
+pub mod mix;
 
 // ------------------------------------------------------------------------------------------
 // own tree (what the request says), independent of the ir types
@@ -397,7 +399,8 @@ pub const PRELUDE: &str = "enum E0 { E0A = 0, E0B = 1, E0C = 5, E0D = -1, E0M = 
 enum E1 { E1A = 1, E1B = 32, E1M = 4294967295u };\n\
 static const int gI = 7;\nstatic int gN = 7;\n\
 namespace NS { static const int nI = 3; static const uint nU = 4u; enum EN { EN0, EN1, EN2 }; }\n\
-cbuffer CB0 { int cbM; }\nstruct GSt { int x; };\nstatic const GSt gS = { 3 };\nstatic const int gA[2] = { 1, 2 };\n";
+cbuffer CB0 { int cbM; }\nstruct GSt { int x; };\nstatic const GSt gS = { 3 };\nstatic const int gA[2] = { 1, 2 };\n\
+static const bool gB = true;\nstatic const uint gU = 2147483648u;\n";
 
 fn type_of_t(module: &mut ir::Module, t: &T) -> ir::TypeId {
     let sc = |m: &mut ir::Module, s| m.type_registry.register_type(ir::TypeLayer::Scalar(s));
@@ -1753,6 +1756,7 @@ pub fn run(args: &Args, out: &mut Out) {
                     out.case(&line, &one_line(&text), "SKIP:probe");
                 }
                 ["C13.pos", pos, src, ..] => run_position(&w, pos, src, out, &mut hist),
+                ["C13.mix", sx, ..] => mix::run_mix(&w, sx, out, &mut hist),
                 ["C13.enum", members, ..] => run_enum(&w, members, out, &mut hist),
                 ["C13.enumhyp", members, ..] => run_enum(&w, members, out, &mut hist),
                 ["C13.hyp", _tree, rest @ ..] => {
@@ -1881,6 +1885,10 @@ pub fn run(args: &Args, out: &mut Out) {
         let ms = gen_enum(&mut rng);
         run_enum(&w, &ms.join(" ; "), out, &mut posh);
     }
+    // (7) operators on operands of mixed kinds, judged at the source level (usual arithmetic conversions)
+    let mut mixh = Hist::default();
+    mix::generate(&w, &mut rng, thorough, if thorough { 10 } else { 1 }, out, &mut mixh);
+    out.stat(&format!("{{\"mixed_kinds\":{}}}", mixh.json()));
     out.stat(&format!("{{\"positions\":{}}}", posh.json()));
     out.stat(&format!(
         "{{\"direct_ir\":{},\"arbitrary_ir\":{},\"through_type_checker\":{}}}",
